@@ -77,6 +77,26 @@ def reasmFrom (segs : List (Seg α)) (base : Nat) : List α × Bool :=
 def uncoveredCount (segs : List (Seg α)) (lo n : Nat) : Nat :=
   ((List.range' lo n).filter fun i => !covered segs i).length
 
+/-! ### capture truncation (snap length: `incl_len < orig_len`, pcapng `captured_len < packet_len`)
+
+  Only the first `k` bytes of an IP packet are in the file.  What a decoder can still know (and what gopacket's
+  layers yield: `IPv4.DecodeFromBytes` / `IPv6` clip the payload to the captured bytes and set Truncated,
+  `TCP.DecodeFromBytes` needs the 20 header bytes): with the IP header (`ipHdr` bytes) and the TCP header
+  complete, the first `k - ipHdr - 20` payload bytes; otherwise nothing of the segment. -/
+
+/-- number of payload bytes of an `n` byte segment that are captured; `none` = the segment is not visible -/
+def visiblePayload (ipHdr k n : Nat) : Option Nat :=
+  if k < ipHdr + 20 then none else some (min n (k - ipHdr - 20))
+
+/-- the cut is inside the TCP header (at least one byte of it is there: with an empty IP payload gopacket's
+    `NextDecoder` does not call a decoder at all): gopacket's `decodeTCP` still adds the (zero) TCP layer before it reports
+    the error (layers/tcp.go), so fq's `packet` hands a segment without ports, flags and payload to the
+    assembler and `New` makes a connection with ports 0 (flowsdecoder.go:114-125 "assume zero port for now") -/
+def tcpHeaderCut (ipHdr k : Nat) : Bool := decide (ipHdr < k) && decide (k < ipHdr + 20)
+
+/-- a segment of which only the first `k` payload bytes were captured -/
+def truncSeg (k : Nat) (g : Seg α) : Seg α := ⟨g.off, min k g.len, g.data.take k⟩
+
 /-- consecutive pieces of `s` with the given lengths starting at offset `off`; what is left after the
     last cut is the last piece -/
 def segmentation : List Nat → Nat → List α → List (Seg α)
